@@ -509,12 +509,79 @@ func c15Timeout(c *h.Ctx, server bool, nframes int, extra bool) {
 	c.Case(fmt.Sprintf("timeout/%s/frames=%d/extra=%v", roleStr(server), nframes, extra), in, true)
 }
 
+// c15PingDuringMessage: the peer's Ping arrives while the application has a message writer open (the reading side
+// answers it through the default handler): the Pong is a control frame BETWEEN the data frames, the data message stays
+// one intact message, and the application's writer is not disturbed. Run as one legal interleaving of the reading
+// and the writing goroutine (write part, read the ping, write the rest).
+func c15PingDuringMessage(c *h.Ctx, server bool) {
+	in := fmt.Sprintf("wsconc ping-during-message role=%s: NextWriter; Write(part 1 > buffer); peer Ping read and answered; Write(part 2); Close", roleStr(server))
+	ping := []byte("are-you-there")
+	// the peer's ping frame as this endpoint receives it (a server reads masked client frames)
+	var inFrame []byte
+	if server {
+		key := [4]byte{9, 8, 7, 6}
+		p := append([]byte(nil), ping...)
+		ws.VerifMaskBytes(key, 0, p)
+		inFrame = append(append([]byte{0x89, 0x80 | byte(len(ping))}, key[:]...), p...)
+	} else {
+		inFrame = append([]byte{0x89, byte(len(ping))}, ping...)
+	}
+	fake := newWsFake(inFrame)
+	conn := ws.VerifNewConn(fake, server, 0, c15B, false)
+	part1, part2 := c15DataPayload(c15B+9), c15DataPayload(23)
+	res := h.Safe(func() string {
+		w, err := conn.NextWriter(ws.BinaryMessage)
+		if err != nil {
+			return "NextWriter: " + err.Error()
+		}
+		if _, err := w.Write(part1); err != nil {
+			return "Write 1: " + err.Error()
+		}
+		// the reading goroutine: processes the ping (default handler replies), then runs out of input
+		if _, _, err := conn.NextReader(); err == nil {
+			return "NextReader returned a data message"
+		}
+		if _, err := w.Write(part2); err != nil {
+			return "Write 2 (after the ping was answered): " + err.Error()
+		}
+		if err := w.Close(); err != nil {
+			return "Close: " + err.Error()
+		}
+		return "ok"
+	})
+	c.Hold(res == "ok", "C15.ping_during_message.writer_undisturbed", in, res, "ok")
+	wire := fake.Written()
+	rep := c.O.Call("ws.parse", roleStr(server), "0", h.Hex(wire))
+	okWire := strings.HasPrefix(rep, "ok ")
+	var data, pong []byte
+	npong, nfinal := 0, 0
+	if okWire {
+		for _, f := range wsParseFrames(rep[3:]) {
+			switch {
+			case f.Op <= 2:
+				data = append(data, h.UnHex(f.Payload)...)
+				if f.Fin {
+					nfinal++
+				}
+			case f.Op == 10:
+				npong++
+				pong = h.UnHex(f.Payload)
+			}
+		}
+	}
+	want := append(append([]byte(nil), part1...), part2...)
+	c.Hold(okWire && bytes.Equal(data, want) && nfinal == 1 && npong == 1 && bytes.Equal(pong, ping), "C15_wire.ping_during_message", in, h.Trunc(rep, 300),
+		"one intact binary message (one FIN), exactly one Pong with the Ping's payload between its frames")
+	c.Case("ping-during-message/"+roleStr(server), in, true)
+}
+
 func c15(c *h.Ctx) {
 	r := c.R
 	for _, server := range []bool{true, false} {
 		for nframes := 1; nframes <= 2; nframes++ {
 			c15Timeout(c, server, nframes, server)
 		}
+		c15PingDuringMessage(c, server)
 	}
 	kinds := []string{"ping", "pong", "close", "xclose", "xclose-partial"}
 	run := 0
